@@ -46,24 +46,27 @@ def safe_pmap(fn, items, chunk=None, max_crashes=8):
     live = {}
     crashes = 0
 
-    def work(start, stop, w):
+    def work(start, stop, precise, w):
+        # precise: announce every item before it is executed (used to re-run what a dead worker left behind)
         batch = []
         for i in range(start, stop):
-            w.send(("at", i))
+            if precise:
+                w.send(("at", i))
             batch.append((i, fn(items[i])))
-            if len(batch) >= 50:
+            if precise or len(batch) >= 200:
                 w.send(("res", batch)); batch = []
         w.send(("res", batch))
         w.close()
 
+    todo = collections.deque((a, b, False) for a, b in todo)
     while todo or live:
         while todo and len(live) < nproc:
-            start, stop = todo.popleft()
+            start, stop, precise = todo.popleft()
             r, w = mpc.Pipe(duplex=False)
-            p = mpc.Process(target=work, args=(start, stop, w))
+            p = mpc.Process(target=work, args=(start, stop, precise, w))
             p.start()
             w.close()
-            live[r] = [p, start, stop, start]
+            live[r] = [p, start, stop, start, precise]
         for r in wait(list(live)):
             rec = live[r]
             try:
@@ -73,30 +76,27 @@ def safe_pmap(fn, items, chunk=None, max_crashes=8):
                 else:
                     for i, res in val:
                         out[i] = res
-                    if val:
-                        rec[3] = max(rec[3], val[-1][0] + 1)
             except (EOFError, OSError):
                 rec[0].join()
                 r.close()
                 del live[r]
-                first_missing = next((i for i in range(rec[1], rec[2]) if out[i] is None), None)
-                if first_missing is not None:
-                    # results of a batch may be lost with the worker: the crashing item is the one it announced last
-                    bad = rec[3] if rec[3] < rec[2] else first_missing
-                    if rec[0].exitcode == 0:
-                        raise MachineryError("worker ended without delivering its results")
+                lost = [i for i in range(rec[1], rec[2]) if out[i] is None]
+                if not lost:
+                    continue
+                if rec[0].exitcode == 0:
+                    raise MachineryError("worker ended without delivering its results")
+                if rec[4]:
                     crashes += 1
-                    out[bad] = {"crashed": True, "item": items[bad], "exit": rec[0].exitcode}
-                    if crashes <= max_crashes:
-                        lost = [i for i in range(rec[1], rec[2]) if out[i] is None]
-                        # re-run what was lost, as runs of consecutive indices
-                        k = 0
-                        while k < len(lost):
-                            m = k
-                            while m + 1 < len(lost) and lost[m + 1] == lost[m] + 1:
-                                m += 1
-                            todo.appendleft((lost[k], lost[m] + 1))
-                            k = m + 1
+                    out[rec[3]] = {"crashed": True, "item": items[rec[3]], "exit": rec[0].exitcode}
+                    lost = [i for i in lost if i != rec[3]]
+                if crashes <= max_crashes:
+                    k = 0
+                    while k < len(lost):                     # re-run what was lost, as runs of consecutive indices
+                        m = k
+                        while m + 1 < len(lost) and lost[m + 1] == lost[m] + 1:
+                            m += 1
+                        todo.appendleft((lost[k], lost[m] + 1, True))
+                        k = m + 1
     return [o for o in out if o is not None]
 
 
@@ -156,7 +156,7 @@ BOUNDS = {
                      RepFan=1, HLens={1, 2, 3}, HVals={1, 2, 4}, HBinSizes={1, 2}, HNBins={2, 3}, HNPer={1, 2},
                      HMins={2}, HMaxs={3}, HDepth=3, HThin=48, HBothW=True,
                      ScaleNs={1023, 1024, 1025, 2047, 2048, 3072, 4096, 5121, 6145, 8192, 49152, 65535, 65536, 65537, 131073},
-                     SmallNs={4, 5, 6, 7}, ScaleThin=8),
+                     SmallNs={4, 5, 6, 7}, ScaleThin=12),
 }
 
 
@@ -806,19 +806,18 @@ def run(ctx):
     lastb = max(i for i, v in enumerate(so["hist"]) if v)
     so["ptr"][lastb + 1:] = [so["ptr"][lastb]] * (len(so["ptr"]) - lastb - 1)       # last occupied bin's slice closed too early
     saved = ctx.traces
-    rej6 = tracecheck.validate(ctx, "HistTrace.tla", [{"id": 6, "kind": "scale", "sc": sprobe["sc"], "obs": [so], "same": True},
-                                                      {"id": 7, "kind": "scale", "sc": sprobe["sc"], "obs": sprobe["obs"], "same": True},
-                                                      {"id": 8, "kind": "scale", "sc": sprobe["sc"], "obs": sprobe["obs"], "same": False}],
-                               what="self-test: corrupted scale observation rejected", workers=1)
-    if "rev_slice_len_ne_hist" not in rej6.get(6, []) or 7 in rej6 or rej6.get(8) != ["engines_differ"]:
-        raise MachineryError("binding self-test failed: corrupted scale observation not rejected exactly (%s)" % rej6)
     rej = tracecheck.validate(ctx, "HistTrace.tla", [{"id": 1, "kind": "case", "c": probe["c"], "obs": [bad_obs]},
                                                      {"id": 2, "kind": "case", "c": probe["c"], "obs": probe["obs"]},
                                                      {"id": 3, "kind": "history", "h": hprobe["h"], "steps": hbad},
                                                      {"id": 4, "kind": "history", "h": hprobe["h"], "steps": hprobe["steps"]},
-                                                     {"id": 5, "kind": "history", "h": hprobe["h"], "steps": hstale}],
+                                                     {"id": 5, "kind": "history", "h": hprobe["h"], "steps": hstale},
+                                                     {"id": 6, "kind": "scale", "sc": sprobe["sc"], "obs": [so], "same": True},
+                                                     {"id": 7, "kind": "scale", "sc": sprobe["sc"], "obs": sprobe["obs"], "same": True},
+                                                     {"id": 8, "kind": "scale", "sc": sprobe["sc"], "obs": sprobe["obs"], "same": False}],
                               what="self-test: corrupted records rejected", workers=1)
     ctx.traces = saved
+    if "rev_slice_len_ne_hist" not in rej.get(6, []) or 7 in rej or rej.get(8) != ["engines_differ"]:
+        raise MachineryError("binding self-test failed: corrupted scale observation not rejected exactly (%s)" % rej)
     if 1 not in rej or 2 in rej or 3 not in rej or 4 in rej or rej.get(5) != ["1:reused_object_differs_from_fresh"]:
         raise MachineryError("binding self-test failed: corrupted histogram / history not rejected exactly (%s)" % rej)
     ctx.rule = ("every data array of length 1..%d over %d lattice values x every bin size %s / bin count %s x every min,max in "
